@@ -3818,6 +3818,10 @@ type scopeEntry struct {
 	hadConst bool                // was there a previous l.localConsts[name]?
 	hadVar   bool                // was there a previous l.localIsVar[name]?
 	hadPtr   bool                // was there a previous l.localIsPtr[name]?
+	// Abstract local consts keep their init AST in l.localAbstractASTs, which
+	// resolveIdentifier consults first: it has to follow the scope as well.
+	hadAbstract  bool        // was there a previous l.localAbstractASTs[name]?
+	prevAbstract parser.Expr // previous l.localAbstractASTs[name] (if hadAbstract)
 }
 
 // scopeFrame represents one lexical scope level.
@@ -3853,6 +3857,11 @@ func (l *Lowerer) popScope() {
 		if !e.hadPtr {
 			delete(l.localIsPtr, e.name)
 		}
+		if e.hadAbstract {
+			l.localAbstractASTs[e.name] = e.prevAbstract
+		} else {
+			delete(l.localAbstractASTs, e.name)
+		}
 	}
 }
 
@@ -3875,6 +3884,7 @@ func (l *Lowerer) scopeSet(name string) {
 	_, hadConst := l.localConsts[name]
 	_, hadVar := l.localIsVar[name]
 	_, hadPtr := l.localIsPtr[name]
+	prevAbstract, hadAbstract := l.localAbstractASTs[name]
 
 	frame.entries = append(frame.entries, scopeEntry{
 		name:     name,
@@ -3883,6 +3893,9 @@ func (l *Lowerer) scopeSet(name string) {
 		hadConst: hadConst,
 		hadVar:   hadVar,
 		hadPtr:   hadPtr,
+
+		hadAbstract:  hadAbstract,
+		prevAbstract: prevAbstract,
 	})
 }
 
